@@ -95,6 +95,9 @@ class SymIO:
         self.fs.mkdir(parts[:-1], parents=True, exist_ok=True)
         self.fs.write(parts, content)
 
+    def exists(self, path):
+        return self.fs.exists(memfs.parse(path))
+
     def cat(self, base, *names):
         return memfs.text_of(memfs.join_norm(memfs.parse(base), [c for n in names for c in (n.split("/") if isinstance(n, str) else [n])]))
 
@@ -112,6 +115,9 @@ class RealIO:
         os.makedirs(os.path.dirname(path), exist_ok=True)
         with open(path, "w", newline="") as fh:
             fh.write(content)
+
+    def exists(self, path):
+        return os.path.exists(path)
 
     def cat(self, base, *names):
         return os.path.join(str(base), *names)
@@ -195,6 +201,11 @@ def make_stubs(io_, st):
 
             def emit(self, arg, out_dir):
                 st.tick(name)
+                if name == "endpoints":
+                    # like the real emitter: package markers are created when missing, never overwritten
+                    for marker in (io_.cat(out_dir, "endpoints", "__init__.py"), io_.cat(out_dir, "__init__.py")):
+                        if not io_.exists(marker):
+                            io_.write(marker, "")
                 p = io_.cat(out_dir, *relfile.split("/"))
                 io_.write(p, _cat(name, " ", self.ctx.sig()))
                 return [p]
@@ -246,11 +257,11 @@ def _segments(pkg):
     return [_simp(s) for s in pkg.split(".")]
 
 
-def _run(cg, root, out_pkg, core_pkg, force):
+def _run(cg, root, out_pkg, core_pkg, force, spec="spec.json"):
     g = cg.ClientGenerator(verbose=False)
     try:
         with contextlib.redirect_stdout(io.StringIO()):
-            g.generate("spec.json", root, out_pkg, force=force, no_postprocess=False, core_package=core_pkg)
+            g.generate(spec, root, out_pkg, force=force, no_postprocess=False, core_package=core_pkg)
         return "ok"
     except Injected:
         return "injected"
